@@ -303,10 +303,75 @@ func c19(c *Ctx) {
 			res.CaseInputs = appendCase(res.CaseInputs, "mismatch_C19_slices", h)
 		}
 	}
+	c19Render(c)
 	res.Traces = len(cases)
 	c.caseSB.WriteString("From Coq Require Import List Arith.\nImport ListNotations.\nFrom DV Require Import Model.SliceHeap Model.SliceCases Gen.DecsIR.\n")
 	c.caseSB.WriteString("Definition cases : list trace_case := [\n" + strings.Join(cases, ";\n") + "].\n")
 	c.caseSB.WriteString("Definition mismatch_C19_slices := Eval vm_compute in bad_cases decs_ir cases.\nPrint mismatch_C19_slices.\n")
+}
+
+// "what All returns is what is rendered": a list built through the operations is rendered element
+// by element, in order, on the line(s) before the statement that carries it.
+func c19Render(c *Ctx) {
+	for i := 0; i < c.N(40); i++ {
+		f, err := decorator.Parse("package a\n\nfunc f() {\n\tx()\n}\n")
+		if err != nil {
+			return
+		}
+		st := f.Decls[0].(*dst.FuncDecl).Body.List[0]
+		d := &st.Decorations().Start
+		var want []string
+		n := 1 + c.Rng.Intn(5)
+		for k := 0; k < n; k++ {
+			e := fmt.Sprintf("// c%d-%d", i, k)
+			if c.Rng.Intn(3) == 0 {
+				e = fmt.Sprintf("/* b%d-%d */", i, k)
+			}
+			switch c.Rng.Intn(3) {
+			case 0:
+				d.Append(e)
+				want = append(want, e)
+			case 1:
+				d.Prepend(e)
+				want = append([]string{e}, want...)
+			case 2:
+				d.Replace(e)
+				want = []string{e}
+			}
+		}
+		c.Res.Evaluations++
+		c.Res.hist("ops", "render")
+		if !eqStrings(d.All(), want) {
+			c.Res.fail("c19-render", fmt.Sprintf("All() = %q, the plain list has %q", d.All(), want), map[string]interface{}{"want": want})
+			continue
+		}
+		out, perr, pm := printDst(f)
+		if pm != "" || perr != nil {
+			c.Res.fail("c19-render", fmt.Sprintf("printing failed: %v %s", perr, pm), map[string]interface{}{"list": want})
+			continue
+		}
+		pos := 0
+		for _, e := range want {
+			j := strings.Index(out[pos:], e)
+			if j < 0 || strings.Count(out, e) != 1 {
+				c.Res.fail("c19-render", fmt.Sprintf("element %q of All() is rendered %d times (in order: %v) in\n%s", e, strings.Count(out, e), j >= 0, out), map[string]interface{}{"list": want})
+				break
+			}
+			pos += j + len(e)
+		}
+	}
+	// the recorded finding: an element that is neither "\n" nor a comment
+	f, err := decorator.Parse("package a\n\nfunc f() {\n\tx()\n}\n")
+	if err != nil {
+		return
+	}
+	st := f.Decls[0].(*dst.FuncDecl).Body.List[0]
+	st.Decorations().Start.Append("// before", "TODO", "\n\n", "// after")
+	c.Res.Evaluations++
+	out, _, _ := printDst(f)
+	if !strings.Contains(out, "TODO") {
+		c.Res.fail("non-comment-element-not-rendered", "All() returns [\"// before\" \"TODO\" \"\\n\\n\" \"// after\"], the printed file has neither \"TODO\" nor the \"\\n\\n\" element:\n"+out, map[string]interface{}{"src": "package a\n\nfunc f() {\n\tx()\n}\n", "edit": "Body.List[0].Decs.Start.Append(\"// before\", \"TODO\", \"\\n\\n\", \"// after\")"})
+	}
 }
 
 func appendCase(m map[string][]string, name string, v interface{}) map[string][]string {
